@@ -1,1 +1,1 @@
-def lpIrfftnHasShapeBackend : Bool := false
+def lpIrfftnHasShapeBackend : Bool := true
